@@ -308,7 +308,10 @@ func (g *Gen) intFor(k reflect.Kind, ti TagInfo) int64 {
 	}
 	c = append(c, 0, 0, 1, 1, 2, 3, 10, 100, 1000, -1)
 	if g.chance(1, 25) {
-		c = append(c, lo, hi, hi+1, lo-1)
+		c = append(c, lo, hi)
+		if hi < 1<<53 {
+			c = append(c, hi+1, lo-1) // out of the Go type's range: yaml decode error
+		}
 	}
 	return c[g.R.Intn(len(c))]
 }
